@@ -19,7 +19,7 @@ LEVEL = "exploration"
 RULE = ("every built-in data command x 1..5 inputs x rank 1-3 shapes x int/float dtypes x mask styles (nomask, all-false, random, "
         "single cell, all-but-one, all) x 3 payloads under the mask; CSV cases vary the number stored in missing cells; distinct by "
         "(command, n, rank, dtypes, mask classes, params)")
-REQUIRED_COUNTERS = ["mask_superset_checks", "mask_exact_checks", "payload_variation_checks", "masked_input_cells", "csv_payload_checks", "follow_up_mask_checks", "netcdf_fill_mask_checks", "large_rasters_checked", "csv_rereads_with_other_marker", "large_files_read", "later_same_family_checks"]
+REQUIRED_COUNTERS = ["mask_superset_checks", "mask_exact_checks", "payload_variation_checks", "masked_input_cells", "csv_payload_checks", "follow_up_mask_checks", "netcdf_fill_mask_checks", "large_rasters_checked", "csv_rereads_with_other_marker", "large_files_read", "later_same_family_checks", "printed_fields_compared", "netcdf_write_read_back_checks"]
 ASSUMPTIONS = ["what is stored under result masks and fill values are not judged", "NaN/inf and zero-length arrays are never generated",
                "cases where the reference is undefined (constant arrays, equal thresholds, zero weight sums) only get check (a) and (c)"]
 
@@ -71,11 +71,21 @@ def cases(ctx):
             fill[0] = False
         if not any(fill):
             fill[-1] = True
-        yield {"kind": "ncread", "values": vals, "fill": fill, "missing_value": rng.choice([v for v, f in zip(vals, fill) if not f] + [4242.0]),
+        mvv = rng.choice([v for v, f in zip(vals, fill) if not f] + [4242.0])
+        if rng.random() < 0.4:
+            # some valid cell holds half the marker
+            k_ = rng.choice([k for k, f in enumerate(fill) if not f])
+            mvv = rng.choice([8.0, -2.0, 0.5, 4242.0])
+            vals = [v if v != mvv else v + 1.0 for v in vals]
+            vals[k_] = mvv / 2.0
+        yield {"kind": "ncread", "values": vals, "fill": fill, "missing_value": mvv,
                "marking": rng.choice(["_FillValue", "_FillValue", "missing_value", "valid_range", "valid_min_max"]),
                "chain": rng.choice([["Copy"], ["Sum"], ["Normalize"], ["CvtToFuzzy"], ["Mean"], ["Multiply"]])}
     for _ in range(ctx.n(160, 6000)):
         yield gen_csv_case(rng)
+    # what PrintVars writes for a field with missing cells must not depend on the numbers hidden underneath them
+    for i in range(ctx.n(4, 60)):
+        yield {"kind": "print", "cells": rng.choice([6, 40, 999, 1001, 1200, 5000]), "rank2": rng.random() < 0.4, "rseed": rng.randrange(10 ** 9), "to_file": rng.random() < 0.7}
     # CSV tables of 70 000 - 140 000 rows with a missing marker (block-wise readers)
     for i in range(ctx.n(1, 8)):
         yield {"kind": "bigcsv", "nrows": rng.choice([70000, 65537, 140000, 131073]), "rseed": rng.randrange(10 ** 9), "marker": rng.choice([-9999, 0, -9999.0]), "chain": rng.choice(["Copy", "Sum", "Normalize"])}
@@ -97,6 +107,11 @@ def gen_csv_case(rng):
     chain = rng.choice([["Copy"], ["Sum"], ["Multiply"], ["Normalize"], ["CvtToFuzzy"], ["CvtToFuzzy", "FuzzyNot"], ["Mean"],
                         ["NormalizeCat"], ["CvtToFuzzyCat"], ["NormalizeCurve"], ["CvtToFuzzy", "FuzzyOr"], ["Maximum"], ["WeightedSum"],
                         ["CvtToFuzzyMeanToMid"], ["NormalizeZScore"], ["CvtToFuzzy", "FuzzyXOr"], ["CvtToFuzzy", "FuzzySelectedUnion"]])
+    if not integer and rng.random() < 0.4:
+        # valid numbers close to - but different from - the markers the two files use
+        for i_ in range(nrows):
+            if not mask[i_] and rng.random() < 0.3:
+                col[i_] = rng.choice([-9998.95, -9999.08, -9999.000001, 77777.5, 77776.9, 4e-09, -2e-12])
     case = {"kind": "csv", "col": col, "mask": mask, "integer": integer, "chain": chain,
             "other": [arr.lattice_value(rng, integer=integer) for _ in range(nrows)]}
     if rng.random() < 0.25:
@@ -123,6 +138,8 @@ def run_ncread(ctx, case):
     marking = case.get("marking", "_FillValue")
     with Dataset(path, "w") as ds:
         ds.createDimension("x", n)
+        xv = ds.createVariable("x", "f8", ("x",))
+        xv[:] = numpy.arange(n) * 1.0
         if marking == "_FillValue":
             v = ds.createVariable("var", "f8", ("x",), fill_value=-1e30)
             v[:] = numpy.ma.array(numpy.array(case["values"], dtype="f8"), mask=numpy.array(case["fill"]))
@@ -155,6 +172,24 @@ def run_ncread(ctx, case):
             p["InFieldNames"] = [prev, prev]
         out = arr.invoke(prog, cmd, "S%d" % j, p)
         prev = "S%d" % j
+    if out.ok and isinstance(out.value, numpy.ndarray) and case["chain"] == ["Sum"] and marking == "_FillValue":
+        # written to a NetCDF file and read back: the result's valid cells stay valid, also where they happen to equal the
+        # number the *source* used as its missing marker (Sum doubles every value: the cell holding marker / 2 now holds it)
+        ctx.count("netcdf_write_read_back_checks")
+        wpath = os.path.join(d, "derived.nc")
+        w = arr.invoke(prog, "EEMSWrite", "W", {"OutFileName": wpath, "OutFieldNames": [prev], "DimensionFileName": path, "DimensionFieldName": "var"})
+        if not w.ok:
+            ctx.note_inconclusive("harness: derived result could not be written: %s" % (w.inner() or w.err))
+        else:
+            back = arr.invoke(arr.new_program(arr.NC_LIBS, working_dir=d), "EEMSRead", "B", {"InFileName": wpath, "InFieldName": prev})
+            ctx.count("netcdf_write_read_back_done")
+            if back.ok:
+                gm, wm = numpy.ma.getmaskarray(back.value).tolist(), numpy.ma.getmaskarray(out.value).tolist()
+                if gm != wm:
+                    i = [k for k, (a_, b_) in enumerate(zip(gm, wm)) if a_ != b_][0]
+                    ctx.fail("ncread:derived-result-written-and-read-back:%s" % ("valid-cell-missing" if gm[i] else "missing-cell-present"),
+                             {"cell": i, "value_there": float(numpy.ma.getdata(out.value)[i]), "source_marker": mv})
+                    return
     xin = prog.commands["X"]._result if prog.commands["X"].is_finished else None
     if isinstance(xin, numpy.ndarray):
         got = numpy.ma.getmaskarray(xin).tolist()
@@ -212,6 +247,39 @@ def run_big(ctx, case):
         ctx.fail("%s:payload-leaks-into-values:large-raster" % cmd, {"shape": list(shape), "which": [i for i, d in enumerate(digs) if d != digs[0]], "params": params})
 
 
+def run_print(ctx, case):
+    import contextlib
+    import io
+    rs = numpy.random.RandomState(case["rseed"] % (2 ** 31))
+    n = case["cells"]
+    shape = (n,) if not case["rank2"] or n % 2 else (2, n // 2)
+    data = numpy.round(rs.uniform(-100, 100, size=shape) * 8) / 8.0
+    mask = rs.uniform(size=shape) < 0.2
+    mask.reshape(-1)[0] = True
+    texts = []
+    for payload in (-9999.0, 123456.0, 1e30):
+        d = data.copy()
+        d[mask] = payload
+        scratch = ctx.scratch()
+        prog = arr.new_program(working_dir=scratch)
+        arr.standin(prog, "Field", numpy.ma.array(d, mask=mask.copy()))
+        args = {"InFieldNames": ["Field"]}
+        if case["to_file"]:
+            args["OutFileName"] = os.path.join(scratch, "vars.txt")
+        buf = io.StringIO()
+        with contextlib.redirect_stdout(buf):
+            out = arr.invoke(prog, "PrintVars", "P", args)
+        if not out.ok:
+            ctx.fail("PrintVars:raises-%s" % (out.inner() or out.err), {"cells": n})
+            return
+        texts.append(open(args["OutFileName"]).read() if case["to_file"] else buf.getvalue())
+    ctx.count("printed_fields_compared")
+    ctx.count("payload_variation_checks")
+    ctx.feature(("print", n > 1000, case["rank2"], case["to_file"]))
+    if len(set(texts)) > 1:
+        ctx.fail("PrintVars:payload-leaks-into-the-printed-text", {"cells": n, "shape": list(shape), "to_file": case["to_file"], "hidden_number_visible": any(("9999" in t or "123456" in t or "e+30" in t) for t in texts)})
+
+
 def run_bigcsv(ctx, case):
     rs = numpy.random.RandomState(case["rseed"] % (2 ** 31))
     n, marker = case["nrows"], case["marker"]
@@ -245,6 +313,8 @@ def run_bigcsv(ctx, case):
 
 
 def run_case(ctx, case):
+    if case["kind"] == "print":
+        return run_print(ctx, case)
     if case["kind"] == "bigcsv":
         return run_bigcsv(ctx, case)
     if case["kind"] == "big":
